@@ -103,15 +103,51 @@ def component_coverage(check: Check, repo) -> None:
         check.count("coverage_components", len(table))
 
 
+STATE_FIELD_ROLES = {
+    # saved by checkpoint(), released by ok(), reinstated by restore()
+    "pos": "backtracked", "user_stack": "backtracked", "rule_stack": "backtracked", "atomic_depth": "backtracked", "_pos_history": "backtracked (the saved positions)",
+    # changed and changed back around a sub-parse by the construct that changes them
+    "neg_pred_depth": "scoped", "_suppress_failures": "scoped", "tag_stack": "scoped",
+    # the furthest-failure record only ever moves forward; it is an output, never read by matching
+    "furthest_pos": "record", "furthest_expected": "record", "furthest_unexpected": "record", "furthest_stack": "record",
+}
+
+
+def state_fields(check: Check, repo) -> None:
+    """STATE-FIELD: every field of ParserState that is written while parsing has a known discipline.  A field that
+    checkpoint() does not save and nobody resets (a cache, a memo, a "last position") is outside the operator model;
+    it is reported as an analysis error (exit 2), not as a violation: a correct position-keyed memo is possible."""
+    cls = repo.cls(STATE_REL, "ParserState")
+    n_writes = 0
+    for fn in [x for x in cls.body if isinstance(x, ast.FunctionDef) and x.name != "__init__"]:
+        for n in ast.walk(fn):
+            tgts = n.targets if isinstance(n, ast.Assign) else [n.target] if isinstance(n, (ast.AugAssign, ast.AnnAssign)) else []
+            for t in tgts:
+                for x in ast.walk(t):
+                    if isinstance(x, ast.Attribute) and isinstance(x.value, ast.Name) and x.value.id == "self" and isinstance(x.ctx, ast.Store):
+                        n_writes += 1
+                        role = STATE_FIELD_ROLES.get(x.attr)
+                        construct = f"{STATE_REL}::ParserState.{fn.name}"
+                        if role is None:
+                            # a field outside the model (a cache, a memo): it may be harmless, but then whether an operator
+                            # is attempted depends on state this analysis does not track — not decided, not a pass
+                            check.defer_error(f"{construct}: `{ast.unparse(n)[:70]}` writes ParserState.{x.attr}, which is neither saved by checkpoint() nor scoped nor part of the failure record; paths that depend on it are outside the operator model (classify it in STATE_FIELD_ROLES after reading)")
+                            continue
+                        check.oblige("STATE-FIELD", construct, f"writes {x.attr} ({role})", True)
+    check.count("state_field_writes", n_writes)
+
+
 def run(tier: str) -> Check:
     check = Check("C05", tier, EXPLANATION)
-    check.rules = ["TERM", "RAISE", "R1", "R2", "COVER", "K2", "REP-INVARIANT"]
+    check.rules = ["TERM", "RAISE", "R1", "R2", "COVER", "K2", "REP-INVARIANT", "STATE-FIELD"]
     check.assumptions = [
         "Stack.snapshot/restore/drop_snapshot return the snapshot's contents: decided by REP-INVARIANT (sa/stackmodel.py) on its finite abstraction",
         "a failed terminal may leave position/stack dirty: every caller propagates the failure or restores (R2)",
     ]
     repo, _ = fill(check, tier, floors={"parse_paths": 100, "skeleton_paths": 100})
     component_coverage(check, repo)
+    state_fields(check, repo)
+    check.floor("state_field_writes", 8)
     from .c09 import rep_invariant
 
     rep_invariant(check, repo, tier)  # restore() hands back exactly the snapshot (shared with C09)
